@@ -225,6 +225,26 @@ func Annotations(e error) Vec {
 	return v
 }
 
+// FirstDiffStr shows where two strings start to differ.
+func FirstDiffStr(a, b string) string {
+	i := 0
+	for i < len(a) && i < len(b) && a[i] == b[i] {
+		i++
+	}
+	lo := i - 40
+	if lo < 0 {
+		lo = 0
+	}
+	ea, eb := i+80, i+80
+	if ea > len(a) {
+		ea = len(a)
+	}
+	if eb > len(b) {
+		eb = len(b)
+	}
+	return fmt.Sprintf("at byte %d: %q vs %q", i, a[lo:ea], b[lo:eb])
+}
+
 // IsG is errors.Is with panics reported instead of propagated.
 func IsG(e, r error) (res bool, panicked bool) {
 	if p := Guard(func() { res = errors.Is(e, r) }); p != nil {
